@@ -599,13 +599,10 @@ namespace link_layer {
         // invalid LLID
         if ( ( header & 0x3 ) != 0 )
         {
+            // The NESN of the PDU acknowledges the last transmitted PDU. The PDU itself was neither
+            // stored nor counted, so next_expected_sequence_number_ must not be changed: a resent
+            // PDU was already acknowledged and a new PDU must not be acknowledged.
             acknowledge( header & nesn_flag );
-
-            // resent PDU?
-            if ( static_cast< bool >( header & sn_flag ) == next_expected_sequence_number_ )
-            {
-                next_expected_sequence_number_ = !next_expected_sequence_number_;
-            }
         }
 
         return next_transmit();
